@@ -137,18 +137,22 @@ def run(run):
                 # --- operands that are calls of declared predicates, over two kinds: an alias may occur in the condition
                 #     only as an argument of a call (never dereferenced there); the laws hold all the same
                 small = [k for k in ("class_declaration", "method_declaration", "variable_declaration") if 1 <= len(proj.by_kind.get(k, [])) <= 40]
-                for rep in range(2 if run.depth == "quick" else 6):
+                # (odd rounds: the formal is spelled like the other FROM alias, and the other operand speaks of that alias)
+                for rep in range(4 if run.depth == "quick" else 12):
                     if len(small) < 2:
                         break
                     ka, kb = rng.sample(small, 2)
                     a1, a2 = rng.choice([("c", "m"), ("x", "y"), ("a", "b")])
                     vb = rng.choice(proj.values.get((kb, "getName")) or ["zz"])
                     va = rng.choice(proj.values.get((ka, "getName")) or ["zz"])
-                    body = rng.choice(['z.getName() == "%s"' % vb, 'z.getName() != "%s"' % vb, 'z.getVisibility() == "public"'])
-                    decl = "predicate isP(%s z) { %s } " % (kb, body)
-                    inl = "(" + body.replace("z.", a2 + ".") + ")"
+                    fz = a1 if rep % 2 == 1 else "z"
+                    body = rng.choice(['%s.getName() == "%s"' % (fz, vb), '%s.getName() != "%s"' % (fz, vb), '%s.getVisibility() == "public"' % fz])
+                    decl = "predicate isP(%s %s) { %s } " % (kb, fz, body)
+                    inl = "(" + body.replace(fz + ".", a2 + ".", 1) + ")"
                     B = "isP(%s)" % a2
                     A = rng.choice(['%s.getName() != "%s"' % (a2, vb), '%s.getVisibility() != "private"' % a2, '%s.getName() == "%s"' % (a1, va)])
+                    if rep % 2 == 1:
+                        A = rng.choice(['%s.getName() == "%s"' % (a1, va), '%s.getName() != "%s"' % (a1, va)])
                     T = '%s.getName() != "no such name"' % a1
 
                     def RS(cond, with_decl=True):
